@@ -3,7 +3,7 @@
    Level: PARTIAL - the operating-system behaviour (signal delivery, process groups, setpgid at
    launch, pipe EOF) is an ASSUMPTION written down in OsTree/Model.v, not derived. *)
 From Coq Require Import List ZArith NArith Bool.
-From PC.StopPlan Require Import Model Proofs.
+From PC.StopPlan Require Import Model Proofs Check CheckProofs.
 From PC.OsTree Require Import Model Proofs.
 Import ListNotations.
 Open Scope Z_scope.
@@ -172,6 +172,14 @@ Theorem C06_parent_only_spares_descendants : forall (E D : Type) p (info : proci
   filter (fun m => negb (m_leader m)) (run_stop p info cb tr) = filter (fun m => negb (m_leader m)) tr.
 Proof. exact @parent_only_spares_children. Qed.
 Print Assumptions C06_parent_only_spares_descendants.
+
+(* model and monitor are consistent: the observation the plan would produce on the fake commander is
+   accepted by the property monitor holds_C06_f, for all parameters, answers and tolerances *)
+Theorem C06_monitor_accepts_model : forall p i ans slack,
+  0 <= slack -> answers_wf ans -> cmd_clear p ans slack ->
+  holds_C06_f (obs_of_model p i ans slack) = true.
+Proof. exact model_satisfies_monitor. Qed.
+Print Assumptions C06_monitor_accepts_model.
 
 (* non-vacuity: a three-member tree with a TERM-ignoring pipe holder meets the side condition of
    C06_no_survivor_partial, the plan contains the escalation at exactly the timeout, nothing survives *)
